@@ -1,13 +1,14 @@
 import Solvor.Mst.Orient
+import Solvor.Mst.UnionFind
 /-!
 Mst: the property theorems of C13 (definitions in `Spec.lean`, helper lemmas in `Lemmas.lean`,
-`Minimal.lean`, `KruskalLemmas.lean`, `PrimLemmas.lean`).
+`Minimal.lean`, `KruskalLemmas.lean`, `PrimLemmas.lean`, `Orient.lean`, `UnionFind.lean`).
 
 T-spec (verified checkers, evaluated by the driver on the implementation's own output):
   `chkSpanningTree_iff`, `spanningTree_acyclic`, `chkSpanningForest_iff`, `connectedB_correct`,
-  `mst_cycle_cert`, `msf_cycle_cert`
+  `inputShape_correct`, `IsSpanningTree.forest`, `mst_cycle_cert`, `msf_cycle_cert`
 T-model (for every input):
-  `kruskal_forest`, `kruskal_minimal`, `prim_tree`, `prim_minimal`, `kruskal_prim_agree`
+  `kruskal_forest`, `kruskal_minimal`, `kruskalUF_eq`, `prim_tree`, `prim_minimal`, `kruskal_prim_agree`
 -/
 namespace Solvor.Mst
 open Solvor.Gen (Status)
@@ -51,6 +52,16 @@ theorem connectedB_correct (n : Nat) (F : List Edge) : connectedB n F = true ↔
 example : ¬ Connected 4 [⟨0, 1, 4⟩, ⟨2, 3, 1⟩, ⟨2, 2, -1⟩] := by
   rw [← connectedB_correct]; decide
 
+/-- The two input-shape tests the driver evaluates on every `prim` case: the adjacency lists are
+those of an undirected graph (hypothesis `GoodAdj` of `prim_tree` / `prim_minimal`), and they
+describe the same undirected graph as the edge list given to `kruskal` (hypothesis `SameGraph`
+of `kruskal_prim_agree`). -/
+theorem inputShape_correct (adj : Adj) (E : List Edge) :
+    (goodAdjB adj = true ↔ GoodAdj adj) ∧ (sameGraphB E (arcs adj) = true ↔ SameGraph E (arcs adj)) :=
+  ⟨goodAdjB_iff, sameGraphB_iff⟩
+
+example : ¬ GoodAdj [[(1, 4)], []] := by rw [← goodAdjB_iff]; decide
+
 /-- a spanning tree is a spanning forest -/
 theorem IsSpanningTree.forest {n : Nat} {E T : List Edge} (hE : Valid n E) (h : IsSpanningTree n E T) :
     IsSpanningForest E T where
@@ -77,6 +88,11 @@ theorem msf_cycle_cert {E T T' : List Edge} (hT : IsSpanningForest E T) (hcert :
   have e1 := eqc hT
   have e2 := eqc hT'
   exact cert_weight_le hE hT.sub (chkMinCert_iff.1 hcert) hT'.sub t2 (by omega)
+
+example : IsSpanningForest [⟨0, 1, 4⟩, ⟨2, 3, 1⟩, ⟨2, 2, -1⟩, ⟨3, 2, 7⟩] [⟨2, 3, 1⟩, ⟨0, 1, 4⟩] ∧
+    chkMinCert [⟨0, 1, 4⟩, ⟨2, 3, 1⟩, ⟨2, 2, -1⟩, ⟨3, 2, 7⟩] [⟨2, 3, 1⟩, ⟨0, 1, 4⟩] = true ∧
+    IsSpanningForest [⟨0, 1, 4⟩, ⟨2, 3, 1⟩, ⟨2, 2, -1⟩, ⟨3, 2, 7⟩] [⟨0, 1, 4⟩, ⟨3, 2, 7⟩] :=
+  ⟨(chkSpanningForest_iff _ _).1 (by decide), by decide, (chkSpanningForest_iff _ _).1 (by decide)⟩
 
 /-- **Minimality certificate (trees).**  A spanning tree accepted by `chkMinCert` is a minimum
 spanning tree: it weighs no more than any spanning tree of the input. -/
@@ -121,17 +137,17 @@ theorem kruskal_forest (n : Nat) (E : List Edge) (af : Bool) (hn : 0 < n) (hE : 
     have h1 : comps n E = 1 := (connected_iff_comps hn E).1 hc
     have hlen : s.acc.length + 1 = n := by omega
     have : ¬ s.acc.length + 1 < n := by omega
-    simp [kfinish, hp.total, hlen]
+    simp [kfinish, shortOff_eq, hp.total, hlen]
   · intro hc haf
     have h1 : comps n E ≠ 1 := fun h => hc ((connected_iff_comps hn E).2 h)
     have h2 := comps_pos hn E
     have : s.acc.length + 1 < n := by omega
-    simp [kfinish, this, haf, hp.total]
+    simp [kfinish, shortOff_eq, this, haf, hp.total]
   · intro hc haf
     have h1 : comps n E ≠ 1 := fun h => hc ((connected_iff_comps hn E).2 h)
     have h2 := comps_pos hn E
     have : s.acc.length + 1 < n := by omega
-    simp [kfinish, this, haf]
+    simp [kfinish, shortOff_eq, this, haf]
 
 -- non-vacuity: the docstring graph (connected) and a disconnected graph with a self loop
 example : (kruskal 4 [⟨0, 1, 4⟩, ⟨0, 2, 3⟩, ⟨1, 2, 2⟩, ⟨1, 3, 5⟩, ⟨2, 3, 6⟩] false).sol
@@ -155,6 +171,7 @@ theorem kruskal_minimal (n : Nat) (E : List Edge) (af : Bool) (hn : 0 < n) (hE :
   have hacc : acc = s.acc ∧ (kruskal n E af).obj = some (weight acc) := by
     rw [hkr] at hsol ⊢
     unfold kfinish at hsol ⊢
+    rw [shortOff_eq] at hsol ⊢
     by_cases h1 : s.acc.length + 1 < n <;> by_cases h2 : af = true <;>
       simp only [h1, h2, if_true, if_false, Option.some.injEq, reduceCtorEq] at hsol ⊢ <;>
       (subst hsol; exact ⟨rfl, by rw [hp.total]⟩)
@@ -170,33 +187,18 @@ example : (kruskal 4 [⟨0, 1, 4⟩, ⟨0, 2, 3⟩, ⟨1, 2, 2⟩, ⟨1, 3, 5⟩
     IsSpanningTree 4 [⟨0, 1, 4⟩, ⟨0, 2, 3⟩, ⟨1, 2, 2⟩, ⟨1, 3, 5⟩, ⟨2, 3, 6⟩] [⟨0, 1, 4⟩, ⟨0, 2, 3⟩, ⟨2, 3, 6⟩] :=
   ⟨by decide, (chkSpanningTree_iff _ _ _).1 (by decide)⟩
 
-/-! ## T-model: Prim -/
+/-- **The union–find inside `kruskal`.**  The literal mirror of `solvor.utils.UnionFind` – parent
+and rank arrays, recursive `find` with path compression (fuel `n` is enough: ranks grow along
+parent pointers and are bounded by the number of unions), union by rank – makes the Kruskal loop
+return exactly what the label model returns, iteration count included.  So every theorem above is
+a theorem about `kruskalUF` as well. -/
+theorem kruskalUF_eq (n : Nat) (E : List Edge) (af : Bool) (hE : Valid n E) :
+    kruskalUF n E af = kruskal n E af := kruskalUF_eq' hE af
 
-/-- the run of `prim` on a well-formed undirected input, by the state its loop ends in -/
-private theorem prim_cases {adj : Adj} (hg : GoodAdj adj) {start : Nat} (hs : start < adj.length) :
-    (∃ acc, prim adj start = ⟨.OPTIMAL, some acc, some (weight acc),
-        (ploop adj adj.length (adj.size + 1) (pinit adj start)).iters,
-        (ploop adj adj.length (adj.size + 1) (pinit adj start)).evals⟩ ∧
-      IsSpanningTree adj.length (arcs adj) acc ∧ MinCert (arcs adj) acc) ∨
-    (prim adj start = ⟨.INFEASIBLE, none, none,
-        (ploop adj adj.length (adj.size + 1) (pinit adj start)).iters,
-        (ploop adj adj.length (adj.size + 1) (pinit adj start)).evals⟩ ∧
-      ¬ Connected adj.length (arcs adj)) := by
-  obtain ⟨hinv, hfin⟩ := prim_final hg hs
-  have hne : adj.isEmpty = false := by
-    cases adj with
-    | nil => simp at hs
-    | cons _ _ => rfl
-  unfold prim
-  simp only [hne, Bool.false_eq_true, if_false]
-  by_cases hlt : (ploop adj adj.length (adj.size + 1) (pinit adj start)).inT.length < adj.length
-  · right
-    rcases hfin with h | h
-    · exact absurd hlt h
-    · exact ⟨by simp [hlt], pinv_stuck hg hinv hlt h⟩
-  · left
-    obtain ⟨htree, hcert⟩ := pinv_full hg hinv hlt
-    exact ⟨_, by simp [hlt, hinv.total], htree, hcert⟩
+example : kruskalUF 4 [⟨0, 1, 4⟩, ⟨0, 2, 3⟩, ⟨1, 2, 2⟩, ⟨1, 3, 5⟩, ⟨2, 3, 6⟩] false
+    = ⟨.OPTIMAL, some [⟨1, 2, 2⟩, ⟨0, 2, 3⟩, ⟨1, 3, 5⟩], some 10, 4, 5⟩ := by decide
+
+/-! ## T-model: Prim -/
 
 /-- **C13, structure of what `prim` returns** on an undirected graph given as adjacency lists
 (every neighbour is a key, every edge listed from both ends), from any start node: on a connected
